@@ -113,6 +113,12 @@ def check(ctx):
     alt = fact_key('self._checksum256(%s[:-1]) == %s[-1]' % (d, d), True)
     keys = gr.fact_keys_at(vt[0])
     ctx.inst('R2', rd, 'eeprom-valid-iff-checksum', want in keys or alt in keys, 'valid = True only when checksum(all but last byte) == last byte; guards %s' % sorted(keys))
+    # ... and ONLY the checksum: once a matching checksum made the image valid nothing on the way to the completion callback may take
+    # that back (a plausibility test on the fields rejects images that were written correctly)
+    unv = [n for n in gr.nodes if n.kind == 'stmt' and isinstance(n.ast, (ast.Assign, ast.AugAssign)) and n is not vt[0] and
+           norm(n.ast.targets[0] if isinstance(n.ast, ast.Assign) else n.ast.target) == 'self.valid' and gr.path_avoiding(vt[0], [n], avoid=[]) is not None]
+    ctx.inst('R2', rd, 'eeprom-valid-not-revoked', not unv, 'self.valid is written again after the checksum made it True (line %s): a correctly written image is reported invalid' %
+             (unv[0].line if unv else None))
     ck = m.func(I2C, 'I2CElement._checksum256')
     rs = [norm(s.value) for s in walk_own(ck.node) if isinstance(s, ast.Return)]
     ctx.inst('R2', ck, 'checksum=sum%256', rs in (['reduce(lambda x, y: x + y, list(%s)) %% 256' % ck.params[1]], ['sum(%s) %% 256' % ck.params[1]]), 'checksum is the byte sum modulo 256; returns %s' % rs)
